@@ -83,3 +83,12 @@ package xpush
 //@   before call:append#1 assert isnil(err)
 //@   at call:append#1 assert called("SendMsg")
 //@   before call:Broadcast#1 assert held(s.Mutex)
+//@
+//@ func (*socket).RemovePipe
+//@   at call:Lock#1 set found:bool = false
+//@   loop 1 invariant !found && s.readyQ == at("call:Lock#1", s.readyQ) && forall(k, 0, rangeindex+1, s.readyQ[k] != p)
+//@   at call:append#1 set found:bool = true
+//@   at call:append#1 assert len(result) == at("call:Lock#1", len(s.readyQ)) - 1 && at("call:Lock#1", s.readyQ[i]) == p
+//@   at call:append#1 assert forall(k, 0, i, result[k] == at("call:Lock#1", s.readyQ[k])) && forall(k, i, len(result), result[k] == at("call:Lock#1", s.readyQ[k+1]))
+//@   before call:delete#1 assert found ==> len(s.readyQ) == at("call:Lock#1", len(s.readyQ)) - 1
+//@   before call:delete#1 assert !found ==> s.readyQ == at("call:Lock#1", s.readyQ) && forall(k, 0, len(s.readyQ), s.readyQ[k] != p)
